@@ -82,6 +82,7 @@ def Cst.orderOk : Cst → Bool
   | .sel e _ _ _ _ => e.orderOk
   | .selOr e _ _ _ _ _ _ _ d => e.orderOk && d.orderOk
   | .lam _ _ _ _ _ b => b.orderOk
+  | .un _ _ _ e => e.orderOk
 /-- An `assert` renders its trailing trivia (`after`) between its `;` and its body: a comment that the
     enclosing sequence attaches to an `assert` item (any comment after it: top level, parentheses) comes
     out in front of the body (`C03.cex_comment_after_assert`). The value of a binding is rendered without
@@ -111,6 +112,7 @@ def Cst.orderOkSeq : Cst → Bool
   | .sel e _ _ _ _ => e.orderOkSeq
   | .selOr e _ _ _ _ _ _ _ d => e.orderOkSeq && d.orderOkSeq
   | .lam _ _ _ _ _ b => b.orderOkSeq
+  | .un _ _ _ e => e.orderOkSeq
 def Items.orderOkSeq : Items → Mode → Prev → Bool → Bool → Bool
   | .nil, _, _, _, _ => true
   | .cmt g _ rest, m, prev, pending, hasItem =>
@@ -168,6 +170,7 @@ def Expr.effAfter : Expr → Bool → List Trivia
   | .sel _ _ _ _ _ a, na => if na then [] else a
   | .selOr _ _ _ _ _ _ _ _ a, na => if na then [] else a
   | .lam _ _ _ _ _ _ a, na => if na then [] else a
+  | .un _ _ _ _ _ a, na => if na then [] else a
 
 def closedB (ts : List Trivia) : Bool :=
   match ts.getLast? with
@@ -194,6 +197,7 @@ def Expr.inlineCleanB : Expr → Bool
   | .sel .. => false
   | .selOr .. => false
   | .lam .. => false
+  | .un .. => false
 def allInlineCleanB : List Expr → Bool
   | [] => true
   | e :: rest => e.inlineCleanB && allInlineCleanB rest
@@ -223,6 +227,7 @@ def Expr.beforeFlatB : Expr → Bool
   | .sel .. => false
   | .selOr .. => false
   | .lam .. => false
+  | .un .. => false
 def allBeforeFlatB : List Expr → Bool
   | [] => true
   | e :: rest => e.beforeFlatB && allBeforeFlatB rest
@@ -246,6 +251,7 @@ def Expr.beforeFlatG : Expr → Bool
   | .sel .. => false
   | .selOr .. => false
   | .lam .. => false
+  | .un .. => false
 def allBeforeFlatG : List Expr → Bool
   | [] => true
   | e :: rest => e.beforeFlatG && allBeforeFlatG rest
@@ -268,6 +274,7 @@ def Expr.beforeFlatP : Expr → Bool
   | .sel .. => false
   | .selOr .. => false
   | .lam .. => false
+  | .un .. => false
 def allBeforeFlatP : List Expr → Bool
   | [] => true
   | e :: rest => e.beforeFlatP && allBeforeFlatP rest
@@ -287,6 +294,7 @@ def Cst.orderOkNA : Cst → Bool
   | .sel e _ _ _ _ => e.orderOkNA
   | .selOr e _ _ _ _ _ _ _ d => e.orderOkNA && d.orderOkNA
   | .lam _ _ _ _ _ b => b.orderOkNA
+  | .un _ _ _ e => e.orderOkNA
 def Items.orderOkNA : Items → Mode → Prev → Bool → Bool → Bool
   | .nil, _, _, _, _ => true
   | .cmt g _ rest, m, prev, pending, hasItem =>
@@ -316,6 +324,7 @@ def Cst.basic : Cst → Bool
   | .sel .. => false
   | .selOr .. => false
   | .lam .. => false
+  | .un .. => false
 def Items.basic : Items → Bool
   | .nil => true
   | .cmt _ _ rest => rest.basic
@@ -338,6 +347,7 @@ def Cst.cf : Cst → Bool
   | .sel .. => false
   | .selOr .. => false
   | .lam .. => false
+  | .un .. => false
 def Items.cf : Items → Bool
   | .nil => true
   | .cmt _ _ _ => false
@@ -382,6 +392,7 @@ def Cst.norm : Cst → Nat → Cst
   | .sel e c1 g1 gd attrs, _ => .sel e c1 g1 gd attrs
   | .selOr e c1 g1 gd attrs c2 g2 g3 d, _ => .selOr e c1 g1 gd attrs c2 g2 g3 d
   | .lam n c1 g1 c2 g2 b, _ => .lam n c1 g1 c2 g2 b
+  | .un op c g e, _ => .un op c g e
 /-- items of a container that spans several lines, one per line at indentation `j` -/
 def Items.normML : Items → Nat → Items
   | .nil, _ => .nil
